@@ -117,6 +117,45 @@ def check_props(prop_files):
     return obligations, discharged, assumptions, failures
 
 
+# ------------------------------------------------------------------ extraction cross-check and coqchk
+def _coq_sexp(x):
+    if isinstance(x, int):
+        return "A (%d)%%Z" % x
+    return "L [" + "; ".join(_coq_sexp(y) for y in x) + "]"
+
+
+def kernel_crosscheck(model_name, pairs, n, tmp):
+    """Re-evaluates a sample of the cases INSIDE Coq (vm_compute) and lets the kernel compare with what the extracted
+    OCaml driver answered: Example k : run_Cxx input = driver_output. Proof. vm_compute. reflexivity. Qed.
+    -> (number checked, error text or None)"""
+    if model_name == "C14":
+        return 0, None          # run_C14 takes the float share function supplied by ocaml/driver.ml
+    small = [(i, o) for i, o in pairs if i != "()" and len(i) + len(o) < 6000]
+    step = max(1, len(small) // n)
+    sample = small[::step][:n]
+    if not sample:
+        return 0, None
+    imports = re.search(r"From Clikit Require Import ([^.]*(?:\.[A-Za-z][^.]*)*)\.\n", open(os.path.join(COQ, "theories", "Extract", "Extract.v")).read()).group(1)
+    lines = ["From Clikit Require Import %s." % imports]
+    for k, (i, o) in enumerate(sample):
+        lines.append("Example x%d : run_%s (%s) = (%s).\nProof. vm_compute. reflexivity. Qed." % (k, model_name, _coq_sexp(from_wire(i)), _coq_sexp(from_wire(o))))
+    path = os.path.join(tmp, "crosscheck.v")
+    with open(path, "w") as f:
+        f.write("\n".join(lines) + "\n")
+    rc, out = sh("ulimit -s unlimited 2>/dev/null; timeout 900 coqc -Q %s/theories Clikit %s" % (COQ, path), 1000, cwd=tmp)
+    return len(sample), (None if rc == 0 else out[-1500:])
+
+
+def run_coqchk(prop_files):
+    """coqchk -o on the property's compiled files: the independent checker re-checks them and everything they depend on
+    and lists the axioms. -> (ok, summary text)"""
+    mods = " ".join("Clikit." + pf[:-2].replace("/", ".") for pf in prop_files)
+    rc, out = sh("timeout 1500 coqchk -silent -o -Q theories Clikit %s" % mods, 1600, cwd=COQ)
+    m = re.search(r"CONTEXT SUMMARY.*", out, flags=re.S)
+    summary = (m.group(0) if m else out[-1200:]).strip()
+    return rc == 0, re.sub(r"\s+", " ", summary)[:1500]
+
+
 # ------------------------------------------------------------------ running cases
 def run_model(model_name, wires, tmp):
     """wires: list of wire strings. Returns list of decoded observations."""
@@ -246,6 +285,8 @@ class Evaluator:
             wires = [to_wire(mod.wire(c)) for c in cases]
         model = run_model(mod.MODEL, wires, self.tmp)
         t2 = time.time()
+        if self.k == 1:
+            self.pairs = list(zip(wires, [m.strip() for m in model]))
         self.t_impl, self.t_model = t1 - t0, t2 - t1
         res = []
         canon_m = getattr(mod, "canon_model", None)
@@ -459,6 +500,22 @@ def run_check(prop, mod, tier, seed, tmp, replay, t_start, log):
             path = write_replay(prop, "proof", tier, seed, None, broken)
             violations.append((path, " no-failing-input-found"))
 
+    # --- the extracted driver against the kernel's own evaluator; the independent checker (thorough)
+    xc_n, xc_err = 0, None
+    if ok_build and getattr(ev, "pairs", None):
+        xc_n, xc_err = kernel_crosscheck(mod.MODEL, ev.pairs, 200 if tier == "thorough" else 30, tmp)
+        if xc_err and not violations:
+            path = write_replay(prop, "extraction", tier, seed, None,
+                                {"broken": "extraction/driver: a case evaluated by vm_compute inside Coq differs from the extracted OCaml driver's answer",
+                                 "output": xc_err})
+            violations.append((path, " no-failing-input-found"))
+    chk_ok, chk_summary = None, None
+    if ok_build and tier == "thorough" and not failures:
+        chk_ok, chk_summary = run_coqchk(mod.PROP_FILES)
+        if not chk_ok and not violations:
+            path = write_replay(prop, "coqchk", tier, seed, None, {"broken": "coqchk rejects the compiled property files", "output": chk_summary})
+            violations.append((path, " no-failing-input-found"))
+
     # --- evidence
     keys = set(r["key"] for r in results if r["key"] is not None)
     samples = []
@@ -475,9 +532,13 @@ def run_check(prop, mod, tier, seed, tmp, replay, t_start, log):
                 "Coq 8.16.1 kernel (vm_compute used in some proofs; no native_compute)",
                 "Print Assumptions: " + "; ".join(assumptions),
                 "extraction: ExtrOcamlBasic only (bool/option/unit/prod/list/sumbool/sumor), no Extract Constant; N/Z/positive stay Coq datatypes",
+                "extraction + driver cross-checked against the kernel: %d cases of this run re-evaluated inside Coq by vm_compute and compared with the driver's answers (%s)" % (
+                    xc_n, "all equal" if not xc_err else "MISMATCH") if mod.MODEL != "C14" else
+                "extraction cross-check not applicable: run_C14 takes the IEEE share function from ocaml/driver.ml (trusted, tied by the run)",
                 "ocaml/driver.ml (S-expression reader/printer, int<->Z) and OCaml 4.13.1",
                 "harness/vcheck.py + harness/props/%s.py (generators, implementation runner, canonicalisation, oracle); CPython 3.12" % prop,
-            ] + list(getattr(mod, "TRUSTED", [])),
+            ] + (["coqchk -o (independent checker) on the property files: %s; %s" % ("accepted" if chk_ok else "REJECTED", chk_summary)] if chk_ok is not None else [])
+            + list(getattr(mod, "TRUSTED", [])),
             "evaluations": len(results),
             "distinct_nontrivial": len(keys),
             "rule": getattr(mod, "RULE", ""),
